@@ -77,7 +77,15 @@ def consts (p : Parsed R) : Consts R :=
   let H := F * Scalar.pow t0 B
   let G := (F - 1.0 / F) / 2.0
   let gamma0 := Scalar.asin (Scalar.sin alpha / D)
-  let lambda0 := lonc - Scalar.asin (G * Scalar.tan gamma0) / B
+  -- for an initial line running due east or west at the centre, `G * tan(gamma_0)` is 1 or -1: exact
+  -- for `alpha = 90`, clamped to the domain of `asin` otherwise (`f64::clamp`: NaN stays NaN)
+  let gt := G * Scalar.tan gamma0
+  let lambda0 :=
+    if ninety then lonc - Scalar.copysign Ellipsoid.fracPi2 gt / B
+    else
+      let lo := if Scalar.lt gt (-1.0) then (-1.0 : R) else gt
+      let cl := if Scalar.gt lo 1.0 then (1.0 : R) else lo
+      lonc - Scalar.asin cl / B
   -- (uc, vc): intermediate coordinates of the projection center
   let uc :=
     if ninety then A * (lonc - lambda0)
